@@ -393,4 +393,62 @@ theorem flatten_length_le_off (doc : Doc) :
         simp only [List.length_append, sepNL, List.length_cons, List.length_nil]
         omega
 
+
+/-! ## Composition of two edit lists -/
+
+theorem applyTE_run (E : List (Nat × Nat × Text)) :
+    ∀ (pos : Nat) (rest : Text), applyTE pos rest E = (runTE pos rest E).1 ++ (runTE pos rest E).2.2 := by
+  induction E with
+  | nil => intro pos rest; simp [applyTE, runTE]
+  | cons ed E ih =>
+    intro pos rest
+    obtain ⟨s, e, t⟩ := ed
+    simp only [applyTE, runTE]
+    rw [ih]
+    simp [List.append_assoc]
+
+theorem applyTE_append (E K : List (Nat × Nat × Text)) :
+    ∀ (pos : Nat) (rest : Text),
+      applyTE pos rest (E ++ K) =
+        (runTE pos rest E).1 ++ applyTE (runTE pos rest E).2.1 (runTE pos rest E).2.2 K := by
+  induction E with
+  | nil => intro pos rest; simp [runTE]
+  | cons ed E ih =>
+    intro pos rest
+    obtain ⟨s, e, t⟩ := ed
+    simp only [List.cons_append, applyTE, runTE]
+    rw [ih]
+    simp [List.append_assoc]
+
+/-- Running ordered edits that lie in `[pos, B]` leaves the cursor inside `[pos, B]` with exactly the
+rest of the document behind it. -/
+theorem runTE_wf (doc : Text) (B : Nat) (E : List (Nat × Nat × Text)) :
+    ∀ (pos : Nat), pos ≤ B → (∀ e ∈ E, pos ≤ e.1 ∧ e.1 ≤ e.2.1 ∧ e.2.1 ≤ B) →
+      E.Pairwise (fun a b => a.2.1 ≤ b.1) →
+      (runTE pos (doc.drop pos) E).2.2 = doc.drop (runTE pos (doc.drop pos) E).2.1 ∧
+        pos ≤ (runTE pos (doc.drop pos) E).2.1 ∧ (runTE pos (doc.drop pos) E).2.1 ≤ B := by
+  induction E with
+  | nil => intro pos hB _ _; simp [runTE, hB]
+  | cons ed E ih =>
+    intro pos hB hb hp
+    obtain ⟨s, e, t⟩ := ed
+    obtain ⟨h1, h2⟩ := List.pairwise_cons.mp hp
+    have hed := hb (s, e, t) (by simp)
+    simp only at hed
+    have hdrop : (doc.drop pos).drop (e - pos) = doc.drop e := by
+      rw [List.drop_drop]; congr 1; omega
+    simp only [runTE, hdrop]
+    have := ih e hed.2.2 (fun x hx => ⟨h1 x hx, (hb x (by simp [hx])).2⟩) h2
+    exact ⟨this.1, by omega, this.2.2⟩
+
+theorem expChunks_split (doc : Text) (st en : Nat → Nat) (rnd : α → Text) (old new : List α) (tr : Trace) :
+    ∀ (c first : Nat), expChunks doc st en rnd old new c first tr =
+      expChunksBody doc st en rnd old new c first tr ++ [(none, doc.drop (bnd st en old.length))] := by
+  induction tr with
+  | nil => intro c first; simp [expChunks, expChunksBody]
+  | cons p tr ih =>
+    intro c first
+    obtain ⟨x, y⟩ := p
+    simp only [expChunks, expChunksBody, ih, List.append_assoc, List.cons_append]
+
 end SamVerif.Differ
